@@ -15,7 +15,7 @@ COQ_DIRS = ['C01']
 MODEL_TARGETS = ['theories/C05/Run.vo']
 PROOF_TARGETS = ['theories/C05/Properties.vo']
 PROPERTIES_V = 'theories/C05/Properties.v'
-IMPORTS = 'Require Import FV.Base.F64 FV.Base.PyVal FV.C01.Model FV.Gen.C05 FV.C05.Model FV.C05.Run.'
+IMPORTS = 'Require Import FV.Base.F64 FV.Base.PyVal FV.C01.Model FV.Gen.C05 FV.C05.Model FV.C05.ModelCb FV.C05.Run.'
 CASE_TYPE = 'case'
 CHECK = 'check_case'
 SHARD_SIZE = 115
@@ -33,7 +33,14 @@ RULE = ('a case = 1..2 real modules with 1..4 parameters drawn from a catalogue 
         'real Dispatcher.handle_activate (whole node / module / module:parameter), handle_deactivate, remove_connection / '
         'reset_connection for connections that are or are not activated when the history starts, concurrently with the '
         'driver threads; two small scenario families (activation racing with updates; a connection leaving during a '
-        'fan-out) are explored systematically.  Compared with the model: resolved omit interval, every message per '
+        'fan-out) are explored systematically.  About a third of the single-thread cases (1..3 modules, up to 5 parameters, '
+        'followers sharing parameter names) and a quarter of the threaded ones carry parameter callbacks registered through '
+        'the real Module.addCallback (with/without extra arguments, callables accepting (value, err) or the value only) and '
+        'Module.registerCallbacks (update_<param> methods of a follower, autoupdate = the follower\'s announceUpdate); every '
+        'operation has a script tree saying what each callback does in that invocation: return, raise TypeError / '
+        'ZeroDivisionError / ValueError / KeyError / RuntimeError / AttributeError, or call announceUpdate of a module with a '
+        'value / error / explicit timestamp (nested funnel, depth <= 3, also about the operation\'s own parameter) and then '
+        'return or raise; threaded cases: callbacks return or raise only.  Compared with the model: resolved omit interval, every message per '
         'connection in order (parameter, kind, exported value bit-exact or error name + text, timestamp), final cache '
         '(value bit-exact, error class/text, timestamp), and for threaded runs the schedule must be executable by the model.  '
         'non-trivial = at least one message after the activation snapshot; distinct = distinct case contents.')
@@ -41,7 +48,11 @@ ASSUMPTIONS = [
     'clock values and intervals are multiples of 1/8 s below 2^40 (float arithmetic on times is exact); time.time() never returns 0',
     'datatypes of generated parameters: FloatRange, IntRange, BoolType, EnumType, StringType, ArrayOf(IntRange), StructOf, TupleOf '
     '(no ScaledInteger / BLOBType); NaN only as top-level double value; raw values kept by "write_ returned None" are canonical or ints for doubles',
-    'no user callbacks registered with addCallback, no check_ functions, SECoP exceptions carry exactly one positional argument',
+    'no check_ functions, SECoP exceptions carry exactly one positional argument',
+    'parameter callbacks raise only subclasses of Exception (a BaseException such as SystemExit is not caught by the callback '
+    'loop and is not considered); callbacks calling announceUpdate (nested funnel) are generated in single-thread cases only '
+    '(in threaded cases callbacks return or raise: the concurrent model has no nested regions); registerCallbacks chains are '
+    'acyclic (a module follows a module with a smaller index), nested announcements of scripted callbacks are finite trees',
     'handle_activate / handle_deactivate / remove_connection are called directly by the connection threads (not through '
     'handle_request, whose dispatcher-wide lock would serialise requests): more interleavings than a real server has',
     'threads are preempted only at synchronisation points (lock acquire, fake driver entry, time.time(), send_reply, '
@@ -52,12 +63,13 @@ ASSUMPTIONS = [
 
 TICK = 8            # ticks per second
 T0 = 8000           # clock start (ticks)
-MODNAMES = ['ma', 'mb']
-PNAMES = ['pa', 'pb', 'pc', 'pd']
+MODNAMES = ['ma', 'mb', 'mc']
+PNAMES = ['pa', 'pb', 'pc', 'pd', 'pe']
 SECOP = ['HardwareError', 'CommunicationFailedError', 'ConfigError', 'RangeError', 'IsBusyError', 'InternalError',
          'ProgrammingError']
 FOREIGN = ['ValueError', 'ZeroDivisionError', 'KeyError', 'RuntimeError']
 MSGS = ['boom', 'x', '']
+CB_EXC = ['TypeError', 'ZeroDivisionError', 'ValueError', 'KeyError', 'RuntimeError', 'AttributeError']
 
 
 def _f(x):
@@ -117,6 +129,12 @@ class _Env:
         self.cur = {}          # thread ident -> op in progress
         self.objs = {}         # oid -> exception instance
         self.setup = True      # no yields, clock +1 per call
+        self.frames = {}       # thread ident -> stack of announceUpdate invocations in progress (callback scripts)
+        self.next_frames = {}  # thread ident -> frames of the announceUpdate calls the operation is about to make
+        self.cb_next = {}      # thread ident -> frame of the announceUpdate call a scripted callback is about to make
+        self.cbreg = []        # per parameter: identities of the registered callbacks, in order
+        self.autocx = []       # [path, conversion data] of the announceUpdate calls made by autoupdate callbacks
+        self.cbrun = []        # kinds of the callback invocations that happened
         env = self
 
         class SecNode:
@@ -135,7 +153,8 @@ class _Env:
                 if env.sched is not None:
                     env.sched.switch('clock')
                 op = env.cur.get(threading.get_ident())
-                env.now += op['dt'] if op else 0
+                fr = env.frames.get(threading.get_ident())
+                env.now += fr[-1]['dt'] if fr else (op['dt'] if op else 0)
                 return env.now / TICK
 
             def __getattr__(self_, name):
@@ -317,9 +336,9 @@ def flat_ops(case):
     """model-level op list per thread: readvia is two reads seeing the same exception instance"""
     res = []
     n = 0
-    for ops in case['threads']:
+    for ti, ops in enumerate(case['threads']):
         l = []
-        for op in ops:
+        for oi, op in enumerate(ops):
             if op['k'] in CONN_OPS:
                 l.append(op)
                 continue
@@ -328,9 +347,11 @@ def flat_ops(case):
                         {'k': 'read', 'p': op['p'], 'res': ['raise', op['exc']], 'dt': op['dt']}]
             else:
                 subs = [op]
-            for o in subs:
+            for si, (o, lv) in enumerate(zip(subs, op_scripts(op))):
                 o = dict(o)
                 o['cx'] = _conv_data(case, o, n)
+                o['cbs'] = lv
+                o['path'] = [ti, oi, si]
                 n += 1
                 l.append(o)
         res.append(l)
@@ -351,6 +372,148 @@ CONN_OPS = ('activate', 'deactivate', 'reset')
 
 def is_threaded(case):
     return len(case['threads']) > 1 or any(op['k'] in CONN_OPS for ops in case['threads'] for op in ops)
+
+
+# ------------------------------------------------------------------ parameter callbacks (addCallback / registerCallbacks)
+def _cb_exc(name):
+    return {'TypeError': TypeError, 'ZeroDivisionError': ZeroDivisionError, 'ValueError': ValueError, 'KeyError': KeyError,
+            'RuntimeError': RuntimeError, 'AttributeError': AttributeError}[name]('callback')
+
+
+def reg_kinds(case):
+    """per parameter the callbacks the registrations of the case produce (harness-side mirror, used by the generators
+    and the encoder; the Coq model computes its own and compares with what the implementation holds)"""
+    kinds = [[] for _ in case['params']]
+    for r in case.get('cbregs') or []:
+        if r['k'] == 'add':
+            kinds[r['p']].append(['fun', bool(r['strict'])])
+            continue
+        upd = dict((n, st) for n, st in case['mods'][r['dst']].get('updates') or [])
+        for pi, p in enumerate(case['params']):
+            if p['mod'] != r['src']:
+                continue
+            if p['name'] in upd:
+                kinds[pi].append(['fun', bool(upd[p['name']])])
+            elif p['name'] in r['auto']:
+                q = [qi for qi, qp in enumerate(case['params']) if qp['mod'] == r['dst'] and qp['name'] == p['name']]
+                kinds[pi].append(['auto', q[0]] if q else ['bad'])
+    return kinds
+
+
+def _conv_cx(case, q, raw, oid, pyvalue=False):
+    """python-runtime data of converting the tagged value raw (pyvalue: the python object raw[0]) with the datatype of
+    parameter q"""
+    p = case['params'][q]
+    dt = G.build(p['d'])
+    if p['d']['t'] == 'enum':
+        dt.set_name(p['name'])
+    cx = {'text': '', 'tname': '', 'oid': oid}
+    if raw is not None:
+        from frappy.errors import SECoPError
+        try:
+            dt(raw[0] if pyvalue else G.untag(raw))
+        except SECoPError as e:
+            cx['text'] = e.args[0] if len(e.args) == 1 else repr(e.args)
+            cx['tname'] = type(e).__name__
+        except Exception as e:
+            cx['text'] = str(e)
+            cx['tname'] = type(e).__name__
+    return cx
+
+
+def _run_script(env, mods, cbid):
+    """body of a scripted callback: what it does is the entry of the script level of the announceUpdate in progress"""
+    tid = threading.get_ident()
+    parent = env.frames[tid][-1]
+    pos = env.cbreg[parent['p']].index(('fun', cbid))
+    e = parent['cbs'][pos]
+    env.cbrun.append(e['k'] + (':' + e['cls'] if e['k'] == 'raise' else ''))
+    if e['k'] == 'ret':
+        return
+    if e['k'] == 'raise':
+        raise _cb_exc(e['cls'])
+    q = e['p']
+    pq = env.case['params'][q]
+    env.cb_next[tid] = {'cbs': e.get('cbs') or [], 'p': q, 'dt': e['dt'], 'path': parent['path'] + [pos]}
+    err = _make_exc(e['err'], env.objs) if e.get('err') else None
+    ts = e['ts'] / TICK if e.get('ts') else None
+    mods[pq['mod']].announceUpdate(pq['name'], G.untag(e['v']), err, ts)
+    if e.get('then'):
+        raise _cb_exc(e['then'])
+
+
+def _scripted(env, mods, cbid, strict, nargs, method=False):
+    """a callable with the real signature: strict = accepts the value only (python itself raises TypeError when the
+    funnel passes (value, err)); nargs extra positional arguments given to addCallback come first"""
+    if method:
+        if strict:
+            def f(self, value):
+                return _run_script(env, mods, cbid)
+        else:
+            def f(self, value, err=None):
+                return _run_script(env, mods, cbid)
+    elif nargs:
+        if strict:
+            def f(tag, value):
+                return _run_script(env, mods, cbid)
+        else:
+            def f(tag, value, err=None):
+                return _run_script(env, mods, cbid)
+    elif strict:
+        def f(value):
+            return _run_script(env, mods, cbid)
+    else:
+        def f(value, err=None):
+            return _run_script(env, mods, cbid)
+    f._cbid = cbid
+    f._strict = strict
+    return f
+
+
+def _auto_frame(env, mods, mi, pname, args):
+    """announceUpdate of module mi called by the real callback loop (registerCallbacks autoupdate): find its script"""
+    tid = threading.get_ident()
+    parent = env.frames[tid][-1]
+    pos = env.cbreg[parent['p']].index(('auto', mi, pname))
+    e = parent['cbs'][pos]
+    env.cbrun.append('auto')
+    q = [qi for qi, qp in enumerate(env.case['params']) if qp['mod'] == mi and qp['name'] == pname][0]
+    path = parent['path'] + [pos]
+    err = args[1] if len(args) > 1 else None
+    env.autocx.append([path, _conv_cx(env.case, q, [args[0]] if err is None else None, 0, pyvalue=True)])
+    return {'cbs': e.get('cbs') or [], 'p': q, 'dt': e['dt'], 'path': path}
+
+
+def _script_entries(level):
+    for e in level or []:
+        yield e
+        if e['k'] in ('ann', 'auto'):
+            yield from _script_entries(e.get('cbs'))
+
+
+def op_scripts(op):
+    """the script levels of an operation (a nested read announces twice)"""
+    return [op.get('cbs_q') or [], op.get('cbs') or []] if op['k'] == 'readvia' else [op.get('cbs') or []]
+
+
+def _script_targets(case, kinds, p, level):
+    """parameters the announcements nested in a script level (of parameter p) are about"""
+    res = []
+    for pos, e in enumerate(level or []):
+        q = None
+        if e['k'] == 'ann':
+            q = e['p']
+        elif e['k'] == 'auto' and pos < len(kinds[p]) and kinds[p][pos][0] == 'auto':
+            q = kinds[p][pos][1]
+        if q is not None:
+            res.append(q)
+            res.extend(_script_targets(case, kinds, q, e.get('cbs')))
+    return res
+
+
+def has_callbacks(case):
+    return bool(case.get('cbregs'))
+
 
 
 def run_case(case):
@@ -385,6 +548,9 @@ def run_case(case):
                 ns['read_' + p['name']] = _driver_read(env, p['name'], pi)
                 if p['has_write']:
                     ns['write_' + p['name']] = _driver_write(env, p['name'])
+            for uname, ustrict in mc.get('updates') or []:
+                # update_<param> methods: what registerCallbacks of a followed module looks for
+                ns['update_' + uname] = _scripted(env, mods, ['upd', mi, uname], bool(ustrict), 0, method=True)
             cls = type(f'M{mi}', (Module,), ns)
             cfg = {'description': 'x'}
             if mc['omit'] is not None:
@@ -425,13 +591,51 @@ def run_case(case):
                     raise
             m.updateCallback = cb
 
-            def au(*a, _orig=m.announceUpdate, **k):
+            def au(pname, *a, _orig=m.announceUpdate, _mi=mods.index(m), **k):
+                tid = threading.get_ident()
                 env.inside += 1
+                nf = env.next_frames.get(tid)
+                if env.frames.get(tid):          # called from inside a callback loop of this thread:
+                    fr = env.cb_next.pop(tid, None)                 # ... by a scripted callback
+                    if fr is None:
+                        fr = _auto_frame(env, mods, _mi, pname, a)  # ... by the loop itself (autoupdate)
+                elif nf:
+                    fr = nf.pop(0)               # announced by the worker (the operation)
+                else:
+                    fr = {'cbs': [], 'p': None, 'dt': 0, 'path': []}
+                env.frames.setdefault(tid, []).append(fr)
                 try:
-                    return _orig(*a, **k)
+                    return _orig(pname, *a, **k)
                 finally:
+                    env.frames[tid].pop()
                     env.inside -= 1
             m.announceUpdate = au
+        # callbacks: the real addCallback / registerCallbacks, scripted callables
+        for ri, r in enumerate(case.get('cbregs') or []):
+            if r['k'] == 'add':
+                pr = case['params'][r['p']]
+                f = _scripted(env, mods, ['add', ri], bool(r['strict']), r.get('nargs', 0))
+                mods[pr['mod']].addCallback(pr['name'], f, *(['tag'] * r.get('nargs', 0)))
+            else:
+                mods[r['src']].registerCallbacks(mods[r['dst']], autoupdate=list(r['auto']))
+        obs['cbreg'] = []
+        for pi, pr in enumerate(case['params']):
+            kinds, ids = [], []
+            for func, args in mods[pr['mod']].paramCallbacks[pr['name']]:
+                cbid = getattr(func, '_cbid', None)
+                owner = [mj for mj, mm in enumerate(mods) if func is mm.__dict__.get('announceUpdate')]
+                if cbid is not None:
+                    kinds.append(['fun', bool(func._strict)])
+                    ids.append(('fun', cbid))
+                elif owner and len(args) == 1:
+                    q = [qi for qi, qp in enumerate(case['params']) if qp['mod'] == owner[0] and qp['name'] == args[0]]
+                    kinds.append(['auto', q[0]] if q else ['bad'])
+                    ids.append(('auto', owner[0], args[0]))
+                else:
+                    kinds.append(['bad'])
+                    ids.append(('bad',))
+            obs['cbreg'].append(kinds)
+            env.cbreg.append(ids)
         env.setup = False
         results = [[] for _ in case['threads']]
         states = []          # single thread: cache after every op
@@ -468,8 +672,13 @@ def run_case(case):
             return d.remove_connection(c)
 
         def worker(ti):
-            for op in case['threads'][ti]:
+            for oi, op in enumerate(case['threads'][ti]):
                 env.cur[threading.get_ident()] = op
+                if op['k'] not in CONN_OPS:
+                    tgt = [op['q'], op['p']] if op['k'] == 'readvia' else [op['p']]
+                    env.next_frames[threading.get_ident()] = [
+                        {'cbs': lv, 'p': tp, 'dt': op['dt'], 'path': [ti, oi, si]}
+                        for si, (lv, tp) in enumerate(zip(op_scripts(op), tgt))]
                 try:
                     if op['k'] in CONN_OPS:
                         do_conn(op)
@@ -480,6 +689,7 @@ def run_case(case):
                 except Exception as e:
                     results[ti].append(type(e).__name__)
                 env.cur[threading.get_ident()] = None
+                env.next_frames[threading.get_ident()] = []
                 if sched is None:
                     states.append([_cell(env, po) for po in pobjs])
                     nmsg.append([len(c.msgs) for c in env.conns])
@@ -510,6 +720,8 @@ def run_case(case):
         obs['states'] = states
         obs['nmsg'] = nmsg
         obs['quiet'] = quiet
+        obs['autocx'] = env.autocx
+        obs['cbrun'] = env.cbrun
         return obs
     finally:
         mb.time = saved_time
@@ -560,9 +772,48 @@ def enc_op(o):
         kk = f"(KAssign {G.gal_val(o['v'])})"
     else:
         kk = f"(KAnnounce {G.gal_val(o['v'])} {gal.option(o.get('err'), enc_exc)} {gal.z(o.get('ts') or 0)})"
-    cx = o['cx']
-    return ('{| o_p := %s; o_k := %s; o_dt := %s; o_cx := {| cx_text := %s; cx_tname := %s; cx_oid := %s |} |}' % (
-        gal.nat(o['p']), kk, gal.z(o['dt']), gs(cx['text']), gs(cx['tname']), gal.nat(cx['oid'])))
+    return '{| o_p := %s; o_k := %s; o_dt := %s; o_cx := %s |}' % (gal.nat(o['p']), kk, gal.z(o['dt']), enc_cx(o['cx']))
+
+
+def enc_cx(cx):
+    return '{| cx_text := %s; cx_tname := %s; cx_oid := %s |}' % (gs(cx['text']), gs(cx['tname']), gal.nat(cx['oid']))
+
+
+def enc_cbs(case, kinds, autocx, p, level, path):
+    """script level of parameter p -> Gallina term of type cbs"""
+    term = 'CNil'
+    for pos in reversed(range(len(level))):
+        e = level[pos]
+        kind = kinds[p][pos] if p is not None and pos < len(kinds[p]) else ['fun', False]
+        strict = gal.boolean(bool(kind[0] == 'fun' and kind[1]))
+        here = path + [pos]
+        if e['k'] == 'ret':
+            term = f'(CRet {strict} {term})'
+        elif e['k'] == 'raise':
+            term = f"(CRaise {strict} {gs(e['cls'])} {term})"
+        elif e['k'] == 'ann':
+            cx = _conv_cx(case, e['p'], e['v'] if not e.get('err') else None, 0)
+            sub = enc_cbs(case, kinds, autocx, e['p'], e.get('cbs') or [], here)
+            term = (f"(CAnn {strict} {gal.nat(e['p'])} {G.gal_val(e['v'])} {gal.option(e.get('err'), enc_exc)} "
+                    f"{gal.z(e.get('ts') or 0)} {gal.z(e['dt'])} {enc_cx(cx)} {sub} {gal.option(e.get('then'), gs)} {term})")
+        else:
+            q = kind[1] if kind[0] == 'auto' else 0
+            cx = autocx.get(json.dumps(here), {'text': '', 'tname': '', 'oid': 0})
+            sub = enc_cbs(case, kinds, autocx, q, e.get('cbs') or [], here)
+            term = f"(CAuto {gal.nat(q)} {gal.z(e['dt'])} {enc_cx(cx)} {sub} {term})"
+    return term
+
+
+def enc_kind(k):
+    return f'(CKFun {gal.boolean(k[1])})' if k[0] == 'fun' else (f'(CKAuto {gal.nat(k[1])})' if k[0] == 'auto' else 'CKBad')
+
+
+def enc_reg(case, r):
+    if r['k'] == 'add':
+        return f"(RAdd {gal.nat(r['p'])} {gal.boolean(bool(r['strict']))})"
+    upd = case['mods'][r['dst']].get('updates') or []
+    return (f"(RFollow {gal.nat(r['src'])} {gal.nat(r['dst'])} "
+            f"{gal.lst(upd, lambda u: '(%s, %s)' % (gs(u[0]), gal.boolean(bool(u[1]))))} {gal.lst(r['auto'], gs)})")
 
 
 def enc_cell(c):
@@ -606,13 +857,20 @@ def encode(case, obs):
             gal.nat(p['mod']), gs(case['mods'][p['mod']]['name']), gs(p['name']), gal.option(ex, gs),
             G.gal_dtype(p['d'], dt), gal.z(om_i)))
     progs = flat_ops(case)
+    kinds = reg_kinds(case)
+    autocx = {json.dumps(path): cx for path, cx in obs.get('autocx') or []}
+    scripts = [[('CNil' if o['k'] in CONN_OPS else enc_cbs(case, kinds, autocx, o['p'], o.get('cbs') or [], o['path']))
+                for o in l] for l in progs]
     return ('{| k_general := %s; k_params := %s; k_conns := %s; k_nmods := %s; k_init := %s; k_now := %s; k_progs := %s; '
-            'k_sched := %s; k_threaded := %s; k_msgs := %s; k_final := %s |}' % (
+            'k_sched := %s; k_threaded := %s; k_msgs := %s; k_final := %s; k_regs := %s; k_cbobs := %s; k_cbs := %s |}' % (
                 gal.z(case['general']), gal.lst(params, str), gal.lst(case['conns'], enc_scope), gal.nat(len(case['mods'])),
                 gal.lst(obs['init'], enc_cell), gal.z(obs['now0']),
                 gal.lst(progs, lambda l: gal.lst(l, enc_job)), gal.lst(obs['decisions'], gal.nat),
                 gal.boolean(is_threaded(case)),
-                gal.lst(obs['conns'], lambda l: gal.lst(l, enc_msg)), gal.lst(obs['final'], enc_final)))
+                gal.lst(obs['conns'], lambda l: gal.lst(l, enc_msg)), gal.lst(obs['final'], enc_final),
+                gal.lst(case.get('cbregs') or [], lambda r: enc_reg(case, r)),
+                gal.lst(obs.get('cbreg') or [[] for _ in case['params']], lambda l: gal.lst(l, enc_kind)),
+                gal.lst(scripts, lambda l: gal.lst(l, str))))
 
 
 def model_result_term(case, obs):
@@ -715,6 +973,15 @@ def oracle(case, obs):
                 fail('connections-disagree', f"parameter {case['params'][p]['name']}: connection {ci} and {seqs[0][0]} got different streams", p=p)
     # single thread: quiescent point after every op -> order, no phantom state, every change (recovery!) announced
     if not is_threaded(case) and obs['states']:
+        kinds = reg_kinds(case)
+        # how many announcements about a parameter one operation may make: its own and those of the callbacks it runs
+        nann = []
+        for op in case['threads'][0]:
+            tg = [op['q'], op['p']] if op['k'] == 'readvia' else [op['p']]
+            allt = list(tg)
+            for lv, tp in zip(op_scripts(op), tg):
+                allt.extend(_script_targets(case, kinds, tp, lv))
+            nann.append(allt)
         for (ci, p), ms in per.items():
             if not ms:
                 continue
@@ -729,14 +996,16 @@ def oracle(case, obs):
                 lo = hi
                 cur = _cache_view(st[p])
                 cur_err = st[p]['err'] is not None
-                for m in sent:
+                many = nann[opi].count(p) > 1
+                for m in (sent[-1:] if many else sent):
+                    # (an operation whose callbacks announce the parameter again may send the states in between)
                     if _view_eq(m, cur):
                         continue
                     only_text = (cur[0] == m[0] == 'error' and cur[1] == m[1] and cur[-1] == m[-1])
                     fail('stale-error-text' if only_text else 'phantom-state',
                          f'connection {ci} parameter {p}: op {opi} sent {m} but the cache holds {cur} at the next quiescent point',
                          p=p, op=opi)
-                if len(sent) > 1:
+                if len(sent) > max(1, nann[opi].count(p)):
                     fail('phantom-state', f'connection {ci} parameter {p}: op {opi} sent {len(sent)} messages for one change', p=p, op=opi)
                 if not sent and (not _view_eq(cur, prev) or (prev_err and not cur_err)):
                     only_text = (cur[0] == prev[0] == 'error' and cur[1] == prev[1] and cur[-1] == prev[-1])
@@ -746,6 +1015,7 @@ def oracle(case, obs):
                 # a wrapped read_/write_ that returned normally (and not Done) IS a recovery: it must be announced
                 op = case['threads'][0][opi]
                 if (prev_err and not sent and op['p'] == p and op['k'] in ('read', 'write') and obs['results'][0][opi] == 'ok'
+                        and not many
                         and (op.get('res') or ['ret'])[0] != 'done'):
                     fail('recovery-not-announced', f'connection {ci} parameter {p}: op {opi} ({op["k"]}) succeeded on a parameter '
                          f'in error state {prev} but no update was sent', p=p, op=opi)
@@ -766,6 +1036,8 @@ def _reused_oids(case):
                 xs = [op['res'][1]]
             elif op['k'] == 'announce' and op.get('err'):
                 xs = [op['err']]
+            for lv in op_scripts(op):
+                xs = xs + [e['err'] for e in _script_entries(lv) if e['k'] == 'ann' and e.get('err')]
             for x in xs:
                 if x['secop']:
                     (reused if x['oid'] in seen else seen).add(x['oid'])
@@ -795,7 +1067,8 @@ def nontrivial_key(case, obs):
         return None
     if sum(len(c) for c in obs['conns']) <= sum(obs['snap']):
         return None
-    return json.dumps([case['params'], case['conns'], case['threads'], case.get('sched')], sort_keys=True, default=str)
+    return json.dumps([case['params'], case['conns'], case['threads'], case.get('sched'), case.get('cbregs')],
+                      sort_keys=True, default=str)
 
 
 def outcome_labels(case, obs):
@@ -804,6 +1077,10 @@ def outcome_labels(case, obs):
         for op in ops:
             labs.append('op=' + op['k'] + (':' + op['res'][0] if op.get('res') else '')
                         + (':' + op['sc'][0] if op.get('sc') else ''))
+    for r in case.get('cbregs') or []:
+        labs.append('register=' + ('addCallback' if r['k'] == 'add' else 'registerCallbacks'))
+    for k in obs.get('cbrun') or []:
+        labs.append('callback=' + k)
     post = sum(len(c) for c in obs.get('conns', [])) - sum(obs.get('snap', []))
     labs.append('messages=' + ('0' if post == 0 else '1-5' if post <= 5 else '6+'))
     for c in obs.get('conns', []):
@@ -815,6 +1092,7 @@ def outcome_labels(case, obs):
 def sample_repr(case, obs):
     return {'params': [(p['name'], p['d']['t'], p['uu']) for p in case['params']], 'conns': case['conns'],
             'threads': [[(o['k'], o.get('p', o.get('c'))) for o in ops] for ops in case['threads']],
+            'callbacks': [(r['k'], r.get('p', (r.get('src'), r.get('dst')))) for r in case.get('cbregs') or []],
             'messages': [[(m['p'], m['kind'], m['ts']) for m in c] for c in obs.get('conns', [])]}
 
 
@@ -942,12 +1220,12 @@ def _contains_enum(t):
     return t[0] == 'enum'
 
 
-def rand_case(rng, nthreads, maxops=14):
-    nmods = rng.choice([1, 1, 2])
+def rand_case(rng, nthreads, maxops=14, nmods=None, maxparams=4):
+    nmods = nmods or rng.choice([1, 1, 2])
     case = {'general': rng.choice([0, 1, 2, 8]),
             'mods': [{'name': MODNAMES[i], 'omit': rng.choice([None, None, 0, 2, 4])} for i in range(nmods)],
             'params': [], 'conns': [], 'threads': [], 'sched': None}
-    pmods = sorted(rng.randrange(nmods) for _ in range(rng.randint(1, 4)))     # snapshot order = module order
+    pmods = sorted(rng.randrange(nmods) for _ in range(rng.randint(1, maxparams)))     # snapshot order = module order
     for i, pm in enumerate(pmods):
         d = rng.choice(CATALOGUE)
         p = {'mod': pm, 'name': PNAMES[i], 'd': d,
@@ -977,6 +1255,99 @@ def rand_case(rng, nthreads, maxops=14):
     if nthreads > 1:
         case['sched'] = {'kind': 'seeded', 'seed': rng.randrange(1 << 30), 'stick': rng.choice([0.0, 0.5, 0.8])}
     return case
+
+
+# ---- callbacks
+def _case_excs(case):
+    """the exception specifications with an object identity used so far (so that new ones get fresh identities)"""
+    res = []
+    for ops in case['threads']:
+        for op in ops:
+            if op['k'] in CONN_OPS:
+                continue
+            xs = [op.get('exc'), op.get('err'), op['res'][1] if op.get('res') and op['res'][0] == 'raise' else None]
+            for lv in op_scripts(op):
+                xs += [e.get('err') for e in _script_entries(lv)]
+            res += [dict(x) for x in xs if x and x.get('secop')]
+    return res
+
+
+def gen_level(rng, case, kinds, p, depth, flat, oids, recent):
+    """what the callbacks registered on parameter p do in one invocation"""
+    out = []
+    for kind in kinds[p]:
+        if kind[0] == 'auto':
+            out.append({'k': 'auto', 'dt': rng.choice([0, 0, 1]),
+                        'cbs': gen_level(rng, case, kinds, kind[1], depth + 1, flat, oids, recent)})
+            continue
+        r = rng.random()
+        if kind[0] != 'fun' or r < 0.35:
+            out.append({'k': 'ret'})
+        elif flat or depth >= 2 or r < 0.72:
+            out.append({'k': 'raise', 'cls': 'TypeError' if rng.random() < 0.25 else rng.choice(CB_EXC[1:])})
+        else:
+            others = [i for i in range(len(case['params'])) if i != p]
+            q = p if (not others or rng.random() < 0.12) else rng.choice(others)
+            pq = case['params'][q]
+            v = None
+            for _ in range(20):
+                t = rand_value(rng, pq, recent)
+                if t[0] == 'float' or not _has_nan(t):
+                    v = t
+                    break
+            if v is None:
+                v = G.tag(G.rand_valid(rng, pq['d']))
+            err = rand_exc(rng, oids) if rng.random() < 0.3 else None
+            out.append({'k': 'ann', 'p': q, 'v': v if err is None or rng.random() < 0.3 else ['none'], 'err': err,
+                        'ts': rng.choice([0, 0, 0, T0 + rng.randrange(-40, 80)]), 'dt': rng.choice([0, 0, 1, 2]),
+                        'cbs': gen_level(rng, case, kinds, q, depth + 1, flat, oids, recent),
+                        'then': None if rng.random() < 0.7 else rng.choice(CB_EXC)})
+    return out
+
+
+def add_callbacks(rng, case, flat):
+    """registrations through the real addCallback / registerCallbacks and a script for every operation; flat = the
+    callbacks only return or raise (threaded cases)"""
+    nm = len(case['mods'])
+    # followers need parameters named like those of the module they follow
+    first = [p['name'] for p in case['params'] if p['mod'] == 0]
+    for mi in range(1, nm):
+        mine = [p for p in case['params'] if p['mod'] == mi]
+        for k, p in enumerate(mine):
+            if k < len(first) and rng.random() < 0.75 and first[k] not in [x['name'] for x in mine]:
+                p['name'] = first[k]
+    regs = []
+    for dst in range(1, nm):
+        if rng.random() < 0.75:                    # acyclic: a module follows one with a smaller index
+            src = rng.randrange(dst)
+            nsrc = [p['name'] for p in case['params'] if p['mod'] == src]
+            ndst = [p['name'] for p in case['params'] if p['mod'] == dst]
+            case['mods'][dst]['updates'] = [[n, rng.random() < 0.35] for n in nsrc if rng.random() < 0.35]
+            auto = [] if flat else [n for n in nsrc if n in ndst and rng.random() < 0.8]
+            regs.append({'k': 'follow', 'src': src, 'dst': dst, 'auto': auto})
+    for _ in range(rng.choice([0, 1, 1, 2, 3]) if regs else rng.choice([1, 1, 2, 3])):
+        regs.append({'k': 'add', 'p': rng.randrange(len(case['params'])), 'strict': rng.random() < 0.3,
+                     'nargs': rng.choice([0, 0, 1])})
+    rng.shuffle(regs)
+    case['cbregs'] = regs
+    kinds = reg_kinds(case)
+    oids, recent = _case_excs(case), {}
+    for ops in case['threads']:
+        for op in ops:
+            if op['k'] in CONN_OPS:
+                continue
+            op['cbs'] = gen_level(rng, case, kinds, op['p'], 0, flat, oids, recent)
+            if op['k'] == 'readvia':
+                op['cbs_q'] = gen_level(rng, case, kinds, op['q'], 0, flat, oids, recent)
+    return case
+
+
+def rand_cb_case(rng, nthreads=1, conn=False):
+    if conn:
+        case = rand_conn_case(rng)
+    else:
+        case = rand_case(rng, nthreads, 8 if nthreads == 1 else 4, nmods=rng.choice([1, 2, 2, 3]), maxparams=5)
+    return add_callbacks(rng, case, is_threaded(case))
 
 
 def rand_scope(rng, case, allow_none=False):
@@ -1100,9 +1471,14 @@ def gen_cases(seed, tier):
     rng = random.Random(f'C05-{seed}-{tier}')
     n1, n2, n3, nsys, lim = {'quick': (1000, 250, 300, 2, 50), 'thorough': (8000, 1600, 1600, 8, 150),
                               'search': (6000, 2500, 2500, 8, 200)}[tier]
-    cases = [rand_case(rng, 1) for _ in range(n1)]
-    cases += [rand_case(rng, rng.choice([2, 2, 3])) for _ in range(n2)]
-    cases += [rand_conn_case(rng) for _ in range(n3)]
+    # about a third of the single-thread cases and a quarter of the threaded ones carry parameter callbacks
+    c1, c2, c3 = (n1 * 35) // 100, n2 // 4, n3 // 5
+    cases = [rand_case(rng, 1) for _ in range(n1 - c1)]
+    cases += [rand_cb_case(rng) for _ in range(c1)]
+    cases += [rand_case(rng, rng.choice([2, 2, 3])) for _ in range(n2 - c2)]
+    cases += [rand_cb_case(rng, rng.choice([2, 2, 3])) for _ in range(c2)]
+    cases += [rand_conn_case(rng) for _ in range(n3 - c3)]
+    cases += [rand_cb_case(rng, conn=True) for _ in range(c3)]
     for _ in range(nsys):
         base = rand_case(rng, 2, 3)
         for t in base['threads']:
@@ -1115,8 +1491,79 @@ def gen_cases(seed, tier):
     return cases
 
 
+def _reg_sources(case):
+    """per parameter: the index of the registration each of its callbacks comes from (same walk as reg_kinds)"""
+    src = [[] for _ in case['params']]
+    for ri, r in enumerate(case.get('cbregs') or []):
+        if r['k'] == 'add':
+            src[r['p']].append(ri)
+            continue
+        upd = dict((n, st) for n, st in case['mods'][r['dst']].get('updates') or [])
+        for pi, p in enumerate(case['params']):
+            if p['mod'] == r['src'] and (p['name'] in upd or p['name'] in r['auto']):
+                src[pi].append(ri)
+    return src
+
+
+def drop_reg(case, ri):
+    """the case without registration ri: its entries are removed from every script level"""
+    c = copy.deepcopy(case)
+    src, kinds = _reg_sources(case), reg_kinds(case)
+
+    def fix(level, p):
+        out = []
+        for pos, e in enumerate(level or []):
+            if pos < len(src[p]) and src[p][pos] == ri:
+                continue
+            if e['k'] == 'ann':
+                e['cbs'] = fix(e.get('cbs'), e['p'])
+            elif e['k'] == 'auto' and pos < len(kinds[p]) and kinds[p][pos][0] == 'auto':
+                e['cbs'] = fix(e.get('cbs'), kinds[p][pos][1])
+            out.append(e)
+        return out
+    for ops in c['threads']:
+        for op in ops:
+            if op['k'] in CONN_OPS:
+                continue
+            op['cbs'] = fix(op.get('cbs'), op['p'])
+            if op['k'] == 'readvia':
+                op['cbs_q'] = fix(op.get('cbs_q'), op['q'])
+    del c['cbregs'][ri]
+    return c
+
+
+def _simpler_scripts(case):
+    """variants with one script entry made simpler (the shape of the script levels is kept)"""
+    def walk(level, path):
+        for i, e in enumerate(level or []):
+            yield path + [i], e
+            if e['k'] in ('ann', 'auto'):
+                yield from walk(e.get('cbs'), path + [i, 'cbs'])
+    for ti, ops in enumerate(case['threads']):
+        for oi, op in enumerate(ops):
+            for key in ('cbs', 'cbs_q'):
+                for path, e in walk(op.get(key), []):
+                    if e['k'] in ('raise', 'ann'):
+                        c = copy.deepcopy(case)
+                        lv = c['threads'][ti][oi][key]
+                        for step in path[:-1]:
+                            lv = lv[step]
+                        lv[path[-1]] = {'k': 'ret'}
+                        yield c
+
+
 def shrink(case):
-    # fewer threads, fewer ops, fewer connections
+    # no callbacks at all, fewer threads, fewer ops, fewer connections
+    if case.get('cbregs'):
+        c = copy.deepcopy(case)
+        c['cbregs'] = []
+        for ops in c['threads']:
+            for op in ops:
+                op.pop('cbs', None)
+                op.pop('cbs_q', None)
+        for m in c['mods']:
+            m.pop('updates', None)
+        yield c
     if len(case['threads']) > 1:
         for i in range(len(case['threads'])):
             c = copy.deepcopy(case)
@@ -1145,3 +1592,7 @@ def shrink(case):
             c = copy.deepcopy(case)
             c['sched'] = {'kind': 'seeded', 'seed': s, 'stick': 0.5}
             yield c
+    for ri in range(len(case.get('cbregs') or [])):
+        if len(case['cbregs']) > 1:
+            yield drop_reg(case, ri)
+    yield from _simpler_scripts(case)
